@@ -1,0 +1,165 @@
+package stratumv1_message
+
+import (
+	"encoding/json"
+	"errors"
+	"fmt"
+
+	"github.com/Lumerin-protocol/proxy-router/internal/lib"
+)
+
+// Shape validation of parsed messages. A message that passes can be handed to every getter,
+// to the job cache and to the share validator without an index, nil-pointer, type-assertion
+// or fixed-width slice fault. Everything else is refused by ParseStratumMessage, which ends
+// the connection it came from.
+
+var ErrStratumV1Shape = errors.New("malformed stratumv1 message")
+
+const (
+	submitMinParams = 5  // worker name, job id, extranonce2, ntime, nonce
+	hexWordDigits   = 8  // hex digits of a 32-bit field (ntime, nonce, nbits, version, version mask / bits)
+	hashDigits      = 64 // hex digits of a 256-bit hash (previous block hash, merkle branch)
+)
+
+func isHex(s string) bool {
+	if len(s)%2 != 0 {
+		return false
+	}
+	for i := 0; i < len(s); i++ {
+		c := s[i]
+		if !(c >= '0' && c <= '9' || c >= 'a' && c <= 'f' || c >= 'A' && c <= 'F') {
+			return false
+		}
+	}
+	return true
+}
+
+func isHexN(s string, digits int) bool {
+	return len(s) == digits && isHex(s)
+}
+
+func shapeErr(format string, a ...any) error {
+	return lib.WrapError(ErrStratumV1Shape, fmt.Errorf(format, a...))
+}
+
+func (m *MiningSubmit) Validate() error {
+	if len(m.Params) < submitMinParams {
+		return shapeErr("mining.submit needs %d params, got %d", submitMinParams, len(m.Params))
+	}
+	if !isHex(m.Params[2]) {
+		return shapeErr("mining.submit extranonce2 is not hex")
+	}
+	if !isHexN(m.Params[3], hexWordDigits) {
+		return shapeErr("mining.submit ntime is not a 32-bit hex field")
+	}
+	if !isHexN(m.Params[4], hexWordDigits) {
+		return shapeErr("mining.submit nonce is not a 32-bit hex field")
+	}
+	if len(m.Params) > 5 && !isHexN(m.Params[5], hexWordDigits) {
+		return shapeErr("mining.submit version bits is not a 32-bit hex field")
+	}
+	return nil
+}
+
+func (m *MiningAuthorize) Validate() error {
+	if m.Params == nil {
+		return shapeErr("mining.authorize without params")
+	}
+	return nil
+}
+
+func (m *MiningSubscribe) Validate() error {
+	if m.Params == nil {
+		return shapeErr("mining.subscribe without params")
+	}
+	return nil
+}
+
+func (m *MiningMultiVersion) Validate() error {
+	if m.Params == nil {
+		return shapeErr("mining.multi_version without params")
+	}
+	return nil
+}
+
+func (m *MiningConfigure) Validate() error {
+	if m.Params == nil {
+		return shapeErr("mining.configure without params")
+	}
+	if mask := m.extParams.VersionRollingMask; mask != "" && !isHexN(mask, hexWordDigits) {
+		return shapeErr("mining.configure version-rolling.mask is not a 32-bit hex field")
+	}
+	return nil
+}
+
+func (m *MiningSetDifficulty) Validate() error {
+	if m.Params == nil {
+		return shapeErr("mining.set_difficulty without params")
+	}
+	return nil
+}
+
+func (m *MiningSetVersionMask) Validate() error {
+	if m.Params == nil {
+		return shapeErr("mining.set_version_mask without params")
+	}
+	if !isHexN(m.Params[0], hexWordDigits) {
+		return shapeErr("mining.set_version_mask mask is not a 32-bit hex field")
+	}
+	return nil
+}
+
+func validExtranonce(extranonce1 interface{}, size interface{}) error {
+	xn, ok := extranonce1.(string)
+	if !ok || !isHex(xn) {
+		return shapeErr("extranonce1 is not a hex string")
+	}
+	n, ok := size.(float64)
+	if !ok || n < 0 || n != float64(int(n)) {
+		return shapeErr("extranonce2 size is not a non-negative integer")
+	}
+	return nil
+}
+
+func (m *MiningSetExtranonce) Validate() error {
+	if m.Params == nil {
+		return shapeErr("mining.set_extranonce without params")
+	}
+	return validExtranonce(m.Params[0], m.Params[1])
+}
+
+func (m *MiningNotify) Validate() error {
+	var s string
+	// job id, prev hash, coinbase 1, coinbase 2, version, nbits, ntime are strings
+	for _, i := range []int{0, 1, 2, 3, 5, 6, 7} {
+		if len(m.Params[i]) == 0 || m.Params[i][0] != '"' || json.Unmarshal(m.Params[i], &s) != nil {
+			return shapeErr("mining.notify param %d is not a string", i)
+		}
+	}
+	if !isHexN(m.GetPrevBlockHash(), hashDigits) {
+		return shapeErr("mining.notify previous block hash is not a 256-bit hex field")
+	}
+	if !isHex(m.GetGen1()) || !isHex(m.GetGen2()) {
+		return shapeErr("mining.notify coinbase part is not hex")
+	}
+	for _, i := range []int{5, 6, 7} {
+		_ = json.Unmarshal(m.Params[i], &s)
+		if !isHexN(s, hexWordDigits) {
+			return shapeErr("mining.notify param %d is not a 32-bit hex field", i)
+		}
+	}
+	var branches []string
+	if len(m.Params[4]) == 0 || m.Params[4][0] != '[' || json.Unmarshal(m.Params[4], &branches) != nil {
+		return shapeErr("mining.notify merkle branches is not an array of strings")
+	}
+	for _, b := range branches {
+		if !isHexN(b, hashDigits) {
+			return shapeErr("mining.notify merkle branch is not a 256-bit hex field")
+		}
+	}
+	var clean bool
+	if len(m.Params[8]) == 0 || json.Unmarshal(m.Params[8], &clean) != nil || string(m.Params[8]) == "null" {
+		return shapeErr("mining.notify clean jobs flag is not a boolean")
+	}
+	return nil
+}
